@@ -66,8 +66,15 @@ def run(chk):
     for i in range(n):
         kind = ("batchsort", "batchvisual")[i % 2]
         trace = chk.workdir / f"batch-{i}.ndjson"
-        ok = vlib.run_recorder(chk, [vlib.VH, "record", "batch", "--kind", kind, "--seed", chk.seed * 100000 + i, "--batches", rnd.choice((2, 3)),
-                                     "--scenes", rnd.choice((2, 3)), "--delay-us", rnd.choice((100, 500, 1500)), "--out", trace]
+        nb, nsc, dly = rnd.choice((2, 3)), rnd.choice((2, 3)), rnd.choice((100, 500, 1500))
+        big = []
+        if i % 8 in (1, 4, 6):
+            # batches of up to 12 scenes served by one or two voting threads, retrieved by the client after predict
+            # returned (i % 8 = 1: BatchVisualSort, 4: BatchSort) or by the retrieving thread (6): far more scenes than
+            # voting threads
+            nb, nsc, big = 2, 12, ["--nv", 1 + (i // 8) % 2]
+        ok = vlib.run_recorder(chk, [vlib.VH, "record", "batch", "--kind", kind, "--seed", chk.seed * 100000 + i, "--batches", nb,
+                                     "--scenes", nsc, "--delay-us", dly, "--out", trace] + big
                                + (["--getter", "1"] if i % 4 >= 2 else []), "batch:record", timeout=300)
         if ok:
             jobs.append((len(jobs), trace, chk.workdir))
